@@ -228,6 +228,18 @@ func (f *Formatter) formatArgument(arg *ast.Argument) {
 	f.writeString(arg.Value.String())
 }
 
+// setVariableType records the type a variable is declared with. A variable used at several
+// positions gets the strictest of their types (`T!` fits where `T` is expected, not the other
+// way round), whatever the order in which the positions are visited.
+func setVariableType(res map[string]string, name, typ string) {
+	if old, ok := res[name]; ok &&
+		strings.ReplaceAll(old, "!", "") == strings.ReplaceAll(typ, "!", "") &&
+		strings.Count(old, "!") >= strings.Count(typ, "!") {
+		return
+	}
+	res[name] = typ
+}
+
 func (f *Formatter) walkArgumentList(s ast.SelectionSet) map[string]string {
 	res := make(map[string]string)
 	for _, field := range common.SelectionSetToFields(s, nil) {
@@ -243,7 +255,7 @@ func (f *Formatter) walkArgumentList(s ast.SelectionSet) map[string]string {
 		if field.SelectionSet != nil {
 			stepRes := f.walkArgumentList(field.SelectionSet)
 			for k, v := range stepRes {
-				res[k] = v
+				setVariableType(res, k, v)
 			}
 		}
 	}
@@ -272,13 +284,13 @@ func (f *Formatter) walkArguments(args ast.ArgumentList, defs ast.ArgumentDefini
 			}
 
 			for k, v := range f.walkChildrenArgumentList(typeDef, a.Value.Children) {
-				res[k] = v
+				setVariableType(res, k, v)
 			}
 			continue
 		}
 
 		if a.Value.Kind == ast.Variable {
-			res[a.Value.Raw] = ad.Type.String()
+			setVariableType(res, a.Value.Raw, ad.Type.String())
 		}
 	}
 }
@@ -300,7 +312,7 @@ func (f *Formatter) walkChildrenArgumentList(typeDef *ast.Definition, childs ast
 				continue
 			}
 			for k, v := range f.walkChildrenArgumentList(chTypeDef, ch.Value.Children) {
-				res[k] = v
+				setVariableType(res, k, v)
 			}
 			continue
 		}
@@ -308,13 +320,13 @@ func (f *Formatter) walkChildrenArgumentList(typeDef *ast.Definition, childs ast
 		if ch.Value.Kind == ast.Variable {
 			// child name is empty if it's an array, f.e. hello(arrArg: [$someVariable])
 			if ch.Name == "" {
-				res[ch.Value.Raw] = ch.Value.ExpectedType.String()
+				setVariableType(res, ch.Value.Raw, ch.Value.ExpectedType.String())
 			}
 			ad := typeDef.Fields.ForName(ch.Name)
 			if ad == nil {
 				continue
 			}
-			res[ch.Value.Raw] = ad.Type.String()
+			setVariableType(res, ch.Value.Raw, ad.Type.String())
 		}
 	}
 	return res
